@@ -189,12 +189,28 @@ def _run(ix, R):
     site = FI + '::parse_priors'
     with R.guard('4.parse', 'ARG', site, 'parse'):
         f = ix.func(site)
-        from sa.helpers import need
-        need(R, '4.parse', 'ARG', site,
-             'prior text -> (callee name, {keyword: literal_eval(value)}) with no renaming or defaults', f,
-             ['V_p = ast.parse(V_s)', 'V_f = V_p.body[0].value', 'V_n = V_f.func.id',
-              'V_a = {V_k.arg: ast.literal_eval(V_k.value) for V_k in V_f.keywords}', 'return (V_n, V_a)'],
-             binding={'V_s': f.params()[0]})
+        fl = mkflow(ix, site)
+        pe = param_env(fl, f, ['s'])
+        stmt = 'prior text -> (callee name, {keyword: literal_eval(value)}) with no renaming or defaults'
+        r = the_return(fl)
+        b_ = dict(pe, F=spec(fl, 'ast.parse(s).body[0].value', pe))
+        names = ['F.func.id']
+        dicts = ['{k_.arg: ast.literal_eval(k_.value) for k_ in F.keywords}',
+                 'dict((k_.arg, ast.literal_eval(k_.value)) for k_ in F.keywords)',
+                 'dict([(k_.arg, ast.literal_eval(k_.value)) for k_ in F.keywords])']
+        ra = atom_of(fl, r.value)
+        if ra is None or ra.head != 'tuple' or len(ra.args) != 2:
+            R.error('4.parse', 'ARG', site, stmt, 'returns %s' % fmt(fl, r.value)[:160], loc=f.loc())
+        else:
+            okn = any(fl.tab.equal(ra.args[0], spec(fl, t_, b_)) for t_ in names)
+            okd = any(fl.tab.equal(ra.args[1], spec(fl, t_, b_)) for t_ in dicts)
+            und = ra.args[1].mentions(lambda a: a.head in ('mutated', 'phi'))
+            if not okd and und:
+                R.error('4.parse', 'ARG', site, stmt, 'the argument dictionary is built by statements this rule cannot follow: %s' %
+                        fmt(fl, ra.args[1])[:160], loc=f.loc())
+            else:
+                R.check('4.parse', 'ARG', site, stmt, okn and okd and not [g for g in getattr(r, 'guards', ()) if not validated(g)],
+                        key=fmt(fl, r.value)[:160], detail='returns %s' % fmt(fl, r.value)[:300], loc=f.loc())
     site = FA + '::create_prior'
     with R.guard('4.create', 'ARG', site, 'create'):
         f = ix.func(site)
